@@ -1,12 +1,12 @@
 (* C05 — normalize_url only deletes irrelevant parts and honours its options.  Statements only.
    Proved: normalize_url never raises (the only abnormal outcome of the model is an unanswered
    oracle question) and an unparseable url (ValueError of the parser or of the port) is returned
-   unchanged, for every option setting.  PARTIAL: 'each part comes from the input' and 'an option
+   unchanged, for every option setting.  Proved as well: the query stage only deletes items and, without sort_query, keeps their order.  PARTIAL: 'each other part comes from the input' and 'an option
    switched off preserves its part' are decided by the harness on the implementation over uniformly
    sampled option settings, and by model correspondence. *)
 From Coq Require Import List NArith.
 Import ListNotations.
-From UV Require Import Py.Val Py.Str Py.UrlLib Ural.Normalize Proofs.NormFacts.
+From UV Require Import Py.Val Py.Str Py.UrlLib Ural.Utils Ural.Normalize Proofs.NormFacts Proofs.SortFacts.
 
 Theorem C05_never_raises : forall e o u x, normalize_url e o u = Exc x -> x = OracleMiss.
 Proof. exact normalize_total. Qed.
@@ -14,5 +14,22 @@ Proof. exact normalize_total. Qed.
 Theorem C05_unparseable_unchanged : forall e o u s, normalize_split e o u = Ok (NOriginal s) -> s = u.
 Proof. exact normalize_original. Qed.
 
+(* the query only loses items: every item of the normalized query is the unquoted (in quoted mode re-quoted)
+   image of an input item that the filters keep; without sort_query / quoted the survivors keep their order *)
+Theorem C05_query_only_deletes : forall (o : n_opts) (df : option (list str)) (q : str) (it : qitem),
+  In it (finish_query_items o (kept_query_items o df q)) ->
+  exists it0, In it0 (safe_qsl_iter q) /\
+              should_strip_query_item o df (unquote_item it0) = false /\
+              it = (if n_quoted o then quote_item (unquote_item it0) else unquote_item it0).
+Proof. exact normalize_query_only_deletes. Qed.
+
+Theorem C05_query_keeps_order : forall (o : n_opts) (df : option (list str)) (q : str),
+  sort_query o = false -> n_quoted o = false -> q <> [] ->
+  finish_query_items o (kept_query_items o df q) =
+  filter (fun it => negb (should_strip_query_item o df it)) (map unquote_item (safe_qsl_iter q)).
+Proof. exact normalize_query_keeps_order. Qed.
+
 Print Assumptions C05_never_raises.
+Print Assumptions C05_query_only_deletes.
+Print Assumptions C05_query_keeps_order.
 Print Assumptions C05_unparseable_unchanged.
